@@ -178,3 +178,81 @@ fn c11_arc_dependence_classes() {
 pub(crate) fn count(s: &State) -> usize {
     s.ref_cnt
 }
+
+// ================================================================================================
+// C01.dep.arc: the pairs of actions the Arc summaries treat as INDEPENDENT really commute
+// (same final count, same synchronisation point, same return values, same thread views in both orders).
+// Independent per `last_dependent_access`: RefInc||RefInc, RefInc||RefDec, Inspect||Inspect.
+// ================================================================================================
+
+/// Two executions built from the SAME symbolic seed: 2 threads, one Arc.
+fn twin_exec(cnt: usize, sync: VersionVec, c0: VersionVec, c1: VersionVec, r0: VersionVec, r1: VersionVec) -> (ManuallyDrop<crate::rt::Execution>, Arc) {
+    let mut set = zero_set2();
+    {
+        let t0 = thread_at_mut(&mut set, 0);
+        t0.causality = c0;
+        t0.released = r0;
+    }
+    {
+        let t1 = thread_at_mut(&mut set, 1);
+        t1.causality = c1;
+        t1.released = r1;
+    }
+    let mut ex = crate::rt::execution::verif_kani::exec_with(ManuallyDrop::into_inner(set), 4);
+    let st = State {
+        ref_cnt: cnt,
+        allocated: Location::disabled(),
+        synchronize: crate::rt::synchronize::verif_kani::sync_with(sync),
+        last_ref_inc: None,
+        last_ref_dec: None,
+        last_ref_inspect: None,
+        last_ref_modification: None,
+    };
+    let r = crate::rt::execution::verif_kani::objects_mut(&mut ex).insert(st);
+    (ex, Arc { state: r })
+}
+
+/// Run action `k` (0 = ref_inc, 1 = ref_dec, 2 = strong_count) as thread `t`; returns the observable result.
+fn act_as(ex: &mut crate::rt::Execution, arc: &Arc, t: usize, k: u8) -> usize {
+    set_active_raw(&mut ex.threads, Some(t));
+    crate::rt::scheduler::verif_kani::with_ctx(ex, || match k {
+        0 => {
+            arc.ref_inc(Location::disabled());
+            0
+        }
+        1 => arc.ref_dec(Location::disabled()) as usize,
+        _ => arc.strong_count(),
+    })
+}
+
+crate::with_fire_forbidden! {
+//@ props=C01,C11 tier=quick fns=src/rt/arc.rs::Arc::ref_inc,src/rt/arc.rs::Arc::ref_dec,src/rt/arc.rs::Arc::strong_count,src/rt/arc.rs::State::last_dependent_access bounded=threads:N=2 models=Execution::schedule=probe,Scheduler::switch=counting,VersionVec::join=s_vv_models_agree
+#[kani::proof]
+#[kani::unwind(7)]
+#[kani::stub(crate::rt::execution::Execution::schedule, crate::rt::execution::Execution::schedule_probe_model)]
+#[kani::stub(crate::rt::scheduler::Scheduler::switch, crate::rt::scheduler::verif_kani::switch_counting_model)]
+fn c01_arc_independent_actions_commute() {
+    let cnt: usize = kani::any();
+    // each acting thread holds a handle of its own
+    kani::assume(cnt >= 2 && cnt < usize::MAX - 1);
+    let (sync, c0, c1, r0, r1) = (crate::rt::vv::verif_kani::any_vv(), crate::rt::vv::verif_kani::any_vv(), crate::rt::vv::verif_kani::any_vv(), crate::rt::vv::verif_kani::any_vv(), crate::rt::vv::verif_kani::any_vv());
+    let (ka, kb): (u8, u8) = (kani::any(), kani::any());
+    // the pairs loom treats as independent
+    kani::assume((ka == 0 && kb == 0) || (ka == 0 && kb == 1) || (ka == 1 && kb == 0) || (ka == 2 && kb == 2));
+    let (mut e1, a1) = twin_exec(cnt, sync, c0, c1, r0, r1);
+    let (mut e2, a2) = twin_exec(cnt, sync, c0, c1, r0, r1);
+    // order 1: thread 0 does ka, then thread 1 does kb;  order 2: the other way round
+    let ra1 = act_as(&mut e1, &a1, 0, ka);
+    let rb1 = act_as(&mut e1, &a1, 1, kb);
+    let rb2 = act_as(&mut e2, &a2, 1, kb);
+    let ra2 = act_as(&mut e2, &a2, 0, ka);
+    oblige!("C01.dep.arc.independent_actions_return_the_same_values_in_both_orders", ra1 == ra2 && rb1 == rb2);
+    let (n1, s1) = av(&e1, &a1);
+    let (n2, s2) = av(&e2, &a2);
+    oblige!("C01.dep.arc.independent_actions_reach_the_same_object_state", n1 == n2 && vv_eq(&s1, &s2));
+    let (v1, v2) = (set_view(&e1.threads), set_view(&e2.threads));
+    oblige!("C01.dep.arc.independent_actions_leave_the_same_thread_views",
+        vv_eq(&v1.th[0].causality, &v2.th[0].causality) && vv_eq(&v1.th[1].causality, &v2.th[1].causality));
+    reach!("c01_arc_commute");
+}
+}
